@@ -577,6 +577,13 @@ fn main() {
         Ok(o) => {
             let so = String::from_utf8_lossy(&o.stdout).to_string();
             let se = String::from_utf8_lossy(&o.stderr).to_string();
+            // a facade that no longer HAS a dependency-named feature (e.g. `dep:` syntax in its
+            // manifest) cannot be configured this way: nothing to check, not a violation
+            let no_such_feature = !o.status.success() && (se.contains("does not have the feature") || se.contains("does not have these features") || se.contains("does not have feature") || se.contains("does not have that feature") || se.contains("which does not have"));
+            if no_such_feature {
+                rep.extra.insert("dep_named_features".into(), json!({"skipped": "the facade crates do not declare the dependency-named features any more", "cargo": se.lines().find(|l| l.starts_with("error")).unwrap_or("")}));
+                return;
+            }
             if !o.status.success() || !so.contains("DONE 0") {
                 let first = se.lines().find(|l| l.starts_with("error")).unwrap_or("").to_string();
                 coll.push(0, Violation {
